@@ -153,6 +153,20 @@ EQUIVALENT = {
  ('stub.go', 481, 'sibling-field'): 'closing the mux below closes every logical connection', ('stub.go', 480, 'negate-if'): 'closing the mux below closes the listener connection too',
  ('stub.go', 708, 'sibling-field'): 'does not compile differently: see the deletion on the same line (close() resets the collected request)',
  ('stub.go', 417, 'int+1'): 'channel capacity 2 instead of 1',
+ # batch 5
+ ('mux.go', 275, 'binop'): 'clamping to an equal value', ('mux.go', 323, 'int+1'): 'Uint32 reads 4 bytes whatever the slice length',
+ ('mux.go', 318, 'delete-call'): 'as for line 258: the error kind after a failure is not fixed by C11', ('mux.go', 338, 'delete-assign'): 'error text only',
+ ('mux.go', 331, 'sibling-field'): 'a net.Conn read returns neither ttrpc error: dead case either way', ('mux.go', 311, 'sibling-field'): 'a net.Conn read returns neither ttrpc error: dead case either way',
+ ('mux.go', 112, 'delete-assign'): 'ignoring the option leaves the default queue of 256, at least as long as any configured here: a receiver that keeps up with the configured length keeps up with a longer one',
+ ('adaptation.go', 524, 'sibling-field'): 'log only', ('adaptation.go', 196, 'sibling-field'): 'log only', ('adaptation.go', 171, 'sibling-field'): 'log only', ('adaptation.go', 505, 'sibling-field'): 'log only',
+ ('adaptation.go', 591, 'int+1'): 'guards logging only', ('adaptation.go', 594, 'int+1'): 'log text only',
+ ('adaptation.go', 215, 'sibling-field'): 'as c07-no-prune', ('adaptation.go', 315, 'sibling-field'): 'as c07-no-prune', ('adaptation.go', 288, 'sibling-field'): 'as c07-no-prune',
+ ('adaptation.go', 587, 'delete-call'): 'as c07-no-prune', ('adaptation.go', 587, 'sibling-field'): 'as c07-no-prune', ('adaptation.go', 458, 'delete-assign'): 'as c07-no-prune',
+ ('adaptation.go', 187, 'binop'): 'only differs when the listener cannot be created (OS error)',
+ ('generate.go', 445, 'negate-if'): 'rootfs propagation: excluded by design', ('generate.go', 441, 'binop'): 'rootfs propagation: excluded by design',
+ ('generate.go', 382, 'sibling-field'): 'does not change which function is called with a non-empty list and an injector set',
+ ('generate.go', 547, 'delete-call'): 'the spec under test always has linux resources when a block I/O class is set',
+ ('generate.go', 461, 'sibling-field'): 'the mount list is assigned afresh two lines below',
 }
 cnt = collections.Counter(r['outcome'].split(' (')[0] for r in rs)
 print(len(rs), 'mutants:', dict(cnt))
